@@ -22,7 +22,45 @@ def gen(ctx):
     cs += runs.generate(ctx, "pvi", n, gammas=[F(1, 2), F(1)], ks=[9], clear=True)
     # several calls with clearing on, where no call but the last converges (solve() after a cleared history is C08's finding)
     cs += runs.generate(ctx, "pvi", max(1, n // 2), gammas=[F(1, 2), F(1)], ks=[2, 5], clear=True, accept=lambda c, r: not r[0]["converged"])
+    cs += near_one_cases(ctx, 2 if quick else 12)
     return cs
+
+
+def near_one_cases(ctx, count):
+    """gamma within 1e-5 of one is NOT one: the documented measure divides by gamma^(j-1).  period = 1, two sweeps, epsilon placed
+    between span(V2 - V1) and span(V2 - V1)/gamma (they differ by 7.6e-6 relative, far above the exactness margin): the documented
+    rule does not stop at sweep 2, an undiscounted measure would - visible through the cleared history"""
+    out = []
+    g = runs.NEAR_ONE
+    tries = 0
+    while len(out) < count and tries < count * 60:
+        tries += 1
+        sub = ctx.rng.randrange(10 ** 9)
+        rng = random.Random(sub)
+        c = runs.gen_run_case(rng, "pvi", family="det", g=g, period=1, ks=[2], clear=True, rscale=0, init="zero", eps=F(1))
+        ref = mdpgen.Ref(c["spec"])
+        v0 = runs.init_values(c["spec"])
+        v1 = ref.sweep(v0, g)
+        v2 = ref.sweep(v1, g)
+        d1 = [a - b for a, b in zip(v1, v0)]
+        d2 = [a - b for a, b in zip(v2, v1)]
+        s1, plain2 = max(d1) - min(d1), max(d2) - min(d2)
+        doc2 = plain2 / g
+        if plain2 <= 0:
+            continue
+        eps = F(float((plain2 + doc2) / 2))
+        if not (plain2 < eps < doc2 and s1 > eps * F(1001, 1000)):
+            continue
+        c["eps"] = str(eps)
+        c["seed"] = sub
+        try:
+            refout, guard = runs.reference(c)
+        except (ZeroDivisionError, OverflowError):
+            continue
+        if guard["ok"] and not refout[-1]["converged"]:
+            c["guard"] = guard
+            out.append(c)
+    return out
 
 
 def oracle(c, r, refout):
